@@ -235,7 +235,16 @@ pub fn check_spec(rep: &mut Report, spec: &Spec, seed: u64) {
             return;
         }
     };
-    check_automaton(rep, &mut auto, "builder", "autospec", &case, seed);
+    if !check_automaton(rep, &mut auto, "builder", "autospec", &case, seed) {
+        return;
+    }
+    // the same automaton after minimize(): different numbering, initial state usually not 0
+    if let Ok(Ok(mut a2)) = build_spec(spec) {
+        if guard(|| a2.minimize()).is_ok() {
+            rep.inc("minimized_builder_automata");
+            check_automaton(rep, &mut a2, "builder+minimized", "autospec", &case, seed);
+        }
+    }
 }
 
 pub fn check_program(prog: &Program, seed: u64, thorough: bool, rep: &mut Report) {
